@@ -2070,7 +2070,28 @@ func (in *Interp) typesModel(f *VOpaque, args []Value, org string, t types.Type)
 	case "extfunc:go/types.NewTuple":
 		return mk("*types.Tuple", map[string]Value{"#elems": &VList{append([]Value{}, args...)}}), true
 	case "extfunc:go/types.NewSignature":
-		return mk("*types.Signature", map[string]Value{"Params": args[1], "Results": args[2]}), true
+		sg := mk("*types.Signature", map[string]Value{"Params": args[1], "Results": args[2]})
+		if len(args) > 3 {
+			if vb, ok := args[3].(VBool); ok && vb.Known {
+				sg.(*VOpaque).attrs["#variadic"] = vb
+				if vb.V {
+					// go/types panics when the last parameter of a variadic signature is not a slice (or string)
+					els := in.tupleElems(args[1])
+					bad := len(els) == 0
+					if !bad {
+						if lo, ok := els[len(els)-1].(*VOpaque); ok {
+							if k := kindOfVal(in.varType(lo)); k != "*types.Slice" {
+								bad = true
+							}
+						}
+					}
+					if bad {
+						in.gpanic(token.NoPos, "types.NewSignature is called with variadic=true for a parameter list whose last parameter is not a slice (go/types panics: \"got T, want variadic parameter with unnamed slice type\")")
+					}
+				}
+			}
+		}
+		return sg, true
 	case "extfunc:go/types.NewVar", "extfunc:go/types.NewField":
 		return mk("*types.Var", map[string]Value{"Name": args[2], "Type": args[3]}), true
 	case "extfunc:go/types.Default":
@@ -2111,6 +2132,8 @@ func (in *Interp) typesModel(f *VOpaque, args []Value, org string, t types.Type)
 			return r.attr(f.meth, func() Value { return in.nameOfVar(r, org) }), true
 		}
 		return r.attr(f.meth, func() Value { return &VOpaque{Origin: org} }), true
+	case "Variadic":
+		return VBool{Known: true, V: in.variadic(r)}, true
 	case "Len", "NumFields", "NumMethods":
 		el := in.elemsOf(r)
 		return VInt{Known: true, V: len(el.Elems)}, true
@@ -2173,7 +2196,7 @@ func (in *Interp) typeString(v Value, bypass bool) VStr {
 	}
 	switch o.Kind {
 	case "*types.Signature":
-		ps := in.tupleString(get("Params"), bypass)
+		ps := in.tupleStringV(get("Params"), bypass, in.variadic(o))
 		rs := get("Results")
 		out := lit("func").concat(ps)
 		rl := in.tupleElems(rs)
@@ -2233,8 +2256,14 @@ func (in *Interp) varType(o *VOpaque) Value {
 }
 
 func (in *Interp) tupleString(v Value, bypass bool) VStr {
+	return in.tupleStringV(v, bypass, false)
+}
+
+// tupleStringV: with variadic set the last element is printed as ...Elem, as go/types does for a variadic signature.
+func (in *Interp) tupleStringV(v Value, bypass bool, variadic bool) VStr {
 	out := lit("(")
-	for i, e := range in.tupleElems(v) {
+	els := in.tupleElems(v)
+	for i, e := range els {
 		if i > 0 {
 			out = out.concat(lit(", "))
 		}
@@ -2243,9 +2272,48 @@ func (in *Interp) tupleString(v Value, bypass bool) VStr {
 		if s, isLit := nm.isLit(); !(isLit && s == "") {
 			out = out.concat(nm).concat(lit(" "))
 		}
+		if variadic && i == len(els)-1 {
+			if to, ok := in.varType(eo).(*VOpaque); ok {
+				el := to.attr("Elem", func() Value { return &VOpaque{Origin: to.Origin + ".Elem()"} })
+				out = out.concat(lit("...")).concat(in.typeString(el, bypass))
+				continue
+			}
+		}
 		out = out.concat(in.typeString(in.varType(eo), bypass))
 	}
 	return out.concat(lit(")"))
+}
+
+// variadic: is this function type variadic? For a signature that came from the user's source it is an input choice (only
+// offered when there is a last parameter; that parameter's type is then a slice); for one built with types.NewSignature it
+// is the flag that was passed.
+func (in *Interp) variadic(sig *VOpaque) bool {
+	if v, ok := sig.attrs["#variadic"].(VBool); ok {
+		return v.V
+	}
+	var ps Value
+	if a, ok := sig.attrs["Params"]; ok {
+		ps = a
+	} else {
+		ps = in.typesModelAttr(sig, "Params")
+	}
+	els := in.tupleElems(ps)
+	res := false
+	if len(els) > 0 && !in.g9mode {
+		if in.decide("VAR:"+sig.Origin+":fixed|variadic", 2) == 1 {
+			if lo, ok := els[len(els)-1].(*VOpaque); ok {
+				if to, ok := in.varType(lo).(*VOpaque); ok && (to.Kind == "" || to.Kind == "*types.Slice") {
+					to.Kind = "*types.Slice"
+					res = true
+				}
+			}
+		}
+	}
+	if sig.attrs == nil {
+		sig.attrs = map[string]Value{}
+	}
+	sig.attrs["#variadic"] = VBool{Known: true, V: res}
+	return res
 }
 
 func (in *Interp) isPurePredicate(f *VFunc) bool {
